@@ -119,7 +119,7 @@ def gen(stream, rng, i, cfg):
             ops.append(['eval', s, f, clock, bool(rng.random() < 0.5)])
     return {'slots': slots, 'ops': ops, 'rand': rng.choice([0.0, 0.25, 0.5, 0.75, 0.999999]),
             'tick_us': rng.choice([None, None, 1, 1000000, 86400000000]),
-            'ref_phase': rng.choice(['before', 'after'])}
+            'ref_phase': rng.choice(['before', 'after', 'before_reversed', 'after_reversed'])}
 
 
 def _jump(rng, cur):
@@ -201,10 +201,12 @@ def _set_env(sc, iso):
     seams.RANDOM.c = sc['rand']
 
 
-def _references(sc, stats, clock):
-    """Outcome of every eval op on a fresh parser carrying the slot's bindings at that point."""
+def _references(sc, stats, clock, reverse=False):
+    """Outcome of every eval op on a fresh parser carrying the slot's bindings at that point.
+    The references are evaluated in operation order or (reverse) in the opposite order, so that state
+    kept outside the parser objects (module level) cannot affect history and references alike."""
     specs = scen.clone(sc['slots'])
-    refs = {}
+    todo = []
     for k, op in enumerate(sc['ops']):
         kind = op[0]
         if kind == 'eval':
@@ -212,10 +214,7 @@ def _references(sc, stats, clock):
             spec = scen.clone(specs[s])
             if flip:
                 spec['debug'] = not spec['debug']
-            w = World([spec])
-            _set_env(sc, iso)
-            refs[k] = (_outcome(w, clock, 0, f, scen.host_elements(spec)), flip)
-            stats['ref_evals'] += 1
+            todo.append((k, spec, f, iso, flip))
         elif kind == 'rebind_var':
             specs[op[1]]['variables'][op[2]] = op[3]
         elif kind == 'rebind_fn':
@@ -226,6 +225,12 @@ def _references(sc, stats, clock):
             specs[op[1]]['listeners'].pop(op[2], None)
         elif kind == 'debug':
             specs[op[1]]['debug'] = not specs[op[1]]['debug']
+    refs = {}
+    for k, spec, f, iso, flip in (reversed(todo) if reverse else todo):
+        w = World([spec])
+        _set_env(sc, iso)
+        refs[k] = (_outcome(w, clock, 0, f, scen.host_elements(spec)), flip)
+        stats['ref_evals'] += 1
     return refs
 
 
@@ -235,8 +240,9 @@ def execute(sc, stats):
     clock = StepClock(reach=want_reach)
     vio = []
     refs = None
-    if sc.get('ref_phase') == 'before':
-        refs = _references(sc, stats, clock)
+    phase = sc.get('ref_phase', 'after')
+    if phase.startswith('before'):
+        refs = _references(sc, stats, clock, reverse=phase.endswith('reversed'))
     world = World(scen.clone(sc['slots']))
     live_specs = scen.clone(sc['slots'])
     got = {}
@@ -308,7 +314,7 @@ def execute(sc, stats):
     if sc.get('tick_us') is not None and seams.CLOCK.reads:
         stats['fault:clock_tick'] += 1
     if refs is None:
-        refs = _references(sc, stats, clock)
+        refs = _references(sc, stats, clock, reverse=phase.endswith('reversed'))
     for k in sorted(got):
         ref, flipped = refs[k]
         if got[k] != ref:
